@@ -11,7 +11,11 @@ try:
     build.macros_mir(('serde-compat',))
     build.tsrs_mir(())
     build.serde_case_mir()
-    for k in ('macros', 'tsrs'):
+    build.corpus_mir(())
+    build.tsrs_mir(('import-esm',))
+    from props import c12
+    build.tsrs_mir(c12.FEATS)
+    for k in ('macros', 'macros-noserde', 'macros-nowarn', 'tsrs', 'tsrs-esm'):
         build.Native(k)
 except build.BuildError as e:
     print('setup: build step failed (checks will retry):', str(e)[-2000:])
